@@ -12,7 +12,7 @@ open A10
 
 /-- One move of the interleaving: a new `Ring::poll` call, a poller step, a new
 `wake()` call by waker `j`, a step of waker `j`, the SQPOLL kernel thread, an
-unrelated completion. -/
+unrelated completion, another submission being queued. -/
 inductive Mv where
   | poll (inf : Bool)
   | p
@@ -20,6 +20,8 @@ inductive Mv where
   | w (j : Nat)
   | k
   | io
+  /-- somebody starts an operation: its submission is queued (not submitted) -/
+  | fill
   deriving Repr, DecidableEq
 
 def stepMv (s : St) : Mv → St
@@ -29,6 +31,7 @@ def stepMv (s : St) : Mv → St
   | .w j => stepW s j
   | .k => stepK s
   | .io => stepIo s
+  | .fill => stepFill s
 
 def runMv (s : St) : List Mv → St
   | [] => s
@@ -126,29 +129,31 @@ theorem not_has_of_all {P : WPc → Prop} {l : List WPc} {q : WPc} (hall : ∀ p
 /-- What an unanswered wake call guarantees (the disjunction of DESIGN.md, with the
 sharper class `robust` of wakers). -/
 def Pending (s : St) : Prop :=
-  0 < s.cq ∨ 0 < s.sq ∨ Has (fun pc => pc.robust = true) s.w ∨
+  0 < s.cq ∨ true ∈ s.sq ∨ Has (fun pc => pc.robust = true) s.w ∨
     (s.word / 2 % 2 = 1 ∧ s.p.preSwap = true) ∨ s.p.noBlock = true
 
 structure Inv (s : St) : Prop where
   /-- the submission queue has at least one slot -/
   len : 1 ≤ s.sqLen
-  /-- never more messages than slots -/
-  sqle : s.sq ≤ s.sqLen
+  /-- never more entries than slots -/
+  sqle : s.sq.length ≤ s.sqLen
   /-- the POLLING bit follows the poller's pc; the word has no other bits than the two -/
   word : if s.p.polling = true then (s.word = 1 ∨ s.word = 3) else (s.word = 0 ∨ s.word = 2)
   /-- POLLING|AWOKEN: the waker that made the transition POLLING → POLLING|AWOKEN in this
   polling period is sending, or its message / completion is there (the completion
   queue is not emptied while POLLING is set) -/
   aw : s.p.polling = true → s.word = 3 →
-    0 < s.cq ∨ 0 < s.sq ∨ Has (fun pc => pc.robust = true) s.w
+    0 < s.cq ∨ true ∈ s.sq ∨ Has (fun pc => pc.robust = true) s.w
   /-- the obligation of a wake call that passed its `fetch_or` -/
   ob : s.oblig = true → Pending s
   /-- a `fetch_or` before the swap leaves AWOKEN set until the swap -/
   obw : s.oblig = true → s.p.preSwap = true → s.word = 2
-  /-- without SQPOLL, the published messages are covered by the `enter` of a waker
-  that has added its message: the last one added is going to submit all of them -/
-  cover : s.mode ≠ .sqpoll → 0 < s.sq →
-    Has (fun pc => ∃ n, pc = .enter true n ∧ s.sq ≤ n) s.w
+  /-- without SQPOLL, the published wake messages are covered by the `enter` of a waker
+  that has added its message: the one that appended the last wake message is going to
+  submit everything up to and including it (all wake messages are among the first `n`
+  entries; consumption is FIFO, so entries appended later do not matter) -/
+  cover : s.mode ≠ .sqpoll → true ∈ s.sq →
+    Has (fun pc => ∃ n, pc = .enter true n ∧ true ∉ s.sq.drop n) s.w
   /-- without SQPOLL, a waker that saw `QueueFull` submits a full queue -/
   full : s.mode ≠ .sqpoll → ∀ (j n : Nat), s.w[j]? = some (.enter false n) → s.sqLen ≤ n
 
@@ -157,10 +162,43 @@ theorem inv_init (mode : Mode) (sqLen : Nat) (h : 1 ≤ sqLen) : Inv (init mode 
 
 /-! ### The simple moves -/
 
-theorem consume_cq_sq (s : St) (n : Nat) :
-    (consume s n).cq + (consume s n).sq = s.cq + s.sq ∧ s.cq ≤ (consume s n).cq ∧
-    (consume s n).sq ≤ s.sq ∧ (0 < (consume s n).sq → (consume s n).sq = s.sq - n ∧ n < s.sq) := by
+theorem consume_cq_le (s : St) (n : Nat) : s.cq ≤ (consume s n).cq := by
   simp only [consume]; omega
+
+theorem consume_sq (s : St) (n : Nat) : (consume s n).sq = s.sq.drop n := rfl
+
+theorem consume_len (s : St) (n : Nat) : (consume s n).sq.length = s.sq.length - n := by
+  simp [consume]
+
+/-- A queued wake message is either still queued after a `consume`, or its completion
+has been posted. -/
+theorem consume_true {s : St} (n : Nat) (h : true ∈ s.sq) :
+    0 < (consume s n).cq ∨ true ∈ (consume s n).sq := by
+  have h' : true ∈ s.sq.take n ++ s.sq.drop n := by rw [List.take_append_drop]; exact h
+  rcases List.mem_append.1 h' with a | a
+  · left
+    have : true ∈ (s.sq.take n).filter id := List.mem_filter.2 ⟨a, rfl⟩
+    have := List.length_pos_of_mem this
+    simp only [consume]; omega
+  · right; exact a
+
+theorem not_mem_drop_drop {l : List Bool} {n : Nat} (h : true ∉ l.drop n) (m : Nat) :
+    true ∉ (l.drop m).drop n := by
+  intro hm
+  rw [List.drop_drop] at hm
+  apply h
+  have e : l.drop (m + n) = (l.drop n).drop m := by rw [List.drop_drop, Nat.add_comm]
+  rw [e] at hm
+  exact List.mem_of_mem_drop hm
+
+theorem not_mem_drop_append_false {l : List Bool} {n : Nat} (h : true ∉ l.drop n) :
+    true ∉ (l ++ [false]).drop n := by
+  intro hm
+  rw [List.drop_append] at hm
+  rcases List.mem_append.1 hm with a | a
+  · exact h a
+  · have := List.mem_of_mem_drop a
+    simp at this
 
 theorem inv_stepIo {s : St} (h : Inv s) : Inv (stepIo s) := by
   rcases h with ⟨h1, h2, h3, h4, h5, h6, h7, h8⟩
@@ -179,31 +217,62 @@ theorem consume_returns (s : St) (n : Nat) : (consume s n).returns = s.returns :
 /-- Consuming submissions (by anybody's `enter`, or the kernel thread) preserves the invariant. -/
 theorem inv_consume {s : St} (h : Inv s) (n : Nat) : Inv (consume s n) := by
   rcases h with ⟨h1, h2, h3, h4, h5, h6, h7, h8⟩
-  have hc := consume_cq_sq s n
+  have hcq := consume_cq_le s n
+  have hlen := consume_len s n
   refine ⟨h1, ?_, h3, ?_, ?_, h6, ?_, h8⟩
-  · show (consume s n).sq ≤ s.sqLen
+  · show (consume s n).sq.length ≤ s.sqLen
     omega
   · intro a b
     rcases h4 a b with c | c | c
     · left; omega
-    · have : 0 < (consume s n).cq ∨ 0 < (consume s n).sq := by omega
-      rcases this with d | d
+    · rcases consume_true n c with d | d
       · left; exact d
       · right; left; exact d
     · right; right; exact c
   · intro a
     rcases h5 a with c | c | c
     · left; omega
-    · have : 0 < (consume s n).cq ∨ 0 < (consume s n).sq := by omega
-      rcases this with d | d
+    · rcases consume_true n c with d | d
       · left; exact d
       · right; left; exact d
     · right; right; exact c
   · intro a b
-    have : 0 < s.sq := by omega
-    refine (h7 a this).mono ?_
+    have b' : true ∈ s.sq.drop n := b
+    refine (h7 a (List.mem_of_mem_drop b')).mono ?_
     rintro pc ⟨m, e, f⟩
-    exact ⟨m, e, by omega⟩
+    exact ⟨m, e, not_mem_drop_drop f n⟩
+
+theorem inv_stepFill {s : St} (h : Inv s) : Inv (stepFill s) := by
+  unfold stepFill
+  split
+  · rename_i hlt
+    rcases h with ⟨h1, h2, h3, h4, h5, h6, h7, h8⟩
+    have hmem : ∀ {x : Bool}, x ∈ s.sq → x ∈ s.sq ++ [false] := fun hx =>
+      List.mem_append.2 (Or.inl hx)
+    refine ⟨h1, ?_, h3, ?_, ?_, h6, ?_, h8⟩
+    · show (s.sq ++ [false]).length ≤ s.sqLen
+      simp; omega
+    · intro a b
+      rcases h4 a b with c | c | c
+      · left; exact c
+      · right; left; exact hmem c
+      · right; right; exact c
+    · intro a
+      rcases h5 a with c | c | c | c
+      · left; exact c
+      · right; left; exact hmem c
+      · right; right; left; exact c
+      · right; right; right; exact c
+    · intro a b
+      have b' : true ∈ s.sq ++ [false] := b
+      have : true ∈ s.sq := by
+        rcases List.mem_append.1 b' with c | c
+        · exact c
+        · simp at c
+      refine (h7 a this).mono ?_
+      rintro pc ⟨m, e, f⟩
+      exact ⟨m, e, not_mem_drop_append_false f⟩
+  · exact h
 
 theorem inv_stepK {s : St} (h : Inv s) : Inv (stepK s) := by
   unfold stepK
@@ -394,15 +463,15 @@ theorem stepW_k1_single {s : St} {j : Nat} (hj : s.w[j]? = some .k1) (hw : s.wor
   simp [stepW, hj, POLLING, hw, hm]
 
 theorem stepW_k1_add {s : St} {j : Nat} (hj : s.w[j]? = some .k1) (hw : s.word = 1)
-    (hm : s.mode ≠ .single) (hlt : s.sq < s.sqLen) :
-    stepW s j = { s with word := 3, oblig := true, sq := s.sq + 1,
-                         w := s.w.set j (.enter true (if s.mode = .sqpoll then 0 else s.sq + 1)) } := by
+    (hm : s.mode ≠ .single) (hlt : s.sq.length < s.sqLen) :
+    stepW s j = { s with word := 3, oblig := true, sq := s.sq ++ [true],
+                         w := s.w.set j (.enter true (if s.mode = .sqpoll then 0 else s.sq.length + 1)) } := by
   simp [stepW, hj, POLLING, hw, hm, tryAdd, hlt, toSubmit]
 
 theorem stepW_k1_full {s : St} {j : Nat} (hj : s.w[j]? = some .k1) (hw : s.word = 1)
-    (hm : s.mode ≠ .single) (hlt : ¬ s.sq < s.sqLen) :
+    (hm : s.mode ≠ .single) (hlt : ¬ s.sq.length < s.sqLen) :
     stepW s j = { s with word := 3, oblig := true,
-                         w := s.w.set j (.enter false (if s.mode = .sqpoll then 0 else s.sq)) } := by
+                         w := s.w.set j (.enter false (if s.mode = .sqpoll then 0 else s.sq.length)) } := by
   simp [stepW, hj, POLLING, hw, hm, tryAdd, hlt, toSubmit]
 
 theorem stepW_enter_true {s : St} {j n : Nat} (hj : s.w[j]? = some (.enter true n)) :
@@ -410,15 +479,15 @@ theorem stepW_enter_true {s : St} {j n : Nat} (hj : s.w[j]? = some (.enter true 
   simp [stepW, hj, consume]
 
 theorem stepW_enter_false_add {s : St} {j n : Nat} (hj : s.w[j]? = some (.enter false n))
-    (hlt : (consume s n).sq < s.sqLen) :
-    stepW s j = { (consume s n) with sq := (consume s n).sq + 1, w := s.w.set j (.enter true (if s.mode = .sqpoll then 0 else (consume s n).sq + 1)) } := by
-  simp only [consume] at hlt
+    (hlt : (consume s n).sq.length < s.sqLen) :
+    stepW s j = { (consume s n) with sq := (consume s n).sq ++ [true], w := s.w.set j (.enter true (if s.mode = .sqpoll then 0 else (consume s n).sq.length + 1)) } := by
+  simp only [consume, List.length_drop] at hlt
   simp [stepW, hj, consume, tryAdd, hlt, toSubmit]
 
 theorem stepW_enter_false_full {s : St} {j n : Nat} (hj : s.w[j]? = some (.enter false n))
-    (hlt : ¬ (consume s n).sq < s.sqLen) :
-    stepW s j = { (consume s n) with w := s.w.set j (.enter false (if s.mode = .sqpoll then 0 else (consume s n).sq)) } := by
-  simp only [consume] at hlt
+    (hlt : ¬ (consume s n).sq.length < s.sqLen) :
+    stepW s j = { (consume s n) with w := s.w.set j (.enter false (if s.mode = .sqpoll then 0 else (consume s n).sq.length)) } := by
+  simp only [consume, List.length_drop] at hlt
   simp [stepW, hj, consume, tryAdd, hlt, toSubmit]
 
 theorem stepW_sync {s : St} {j : Nat} (hj : s.w[j]? = some .sync) :
@@ -521,35 +590,39 @@ theorem inv_stepW_k1_single {s : St} {j : Nat} (h : Inv s) (hj : s.w[j]? = some 
     exact full_set hj (h8 a) (by simp)
 
 theorem inv_stepW_k1_add {s : St} {j : Nat} (h : Inv s) (hj : s.w[j]? = some .k1)
-    (hw : s.word = 1) (hm : s.mode ≠ .single) (hlt : s.sq < s.sqLen) : Inv (stepW s j) := by
+    (hw : s.word = 1) (hm : s.mode ≠ .single) (hlt : s.sq.length < s.sqLen) : Inv (stepW s j) := by
   rw [stepW_k1_add hj hw hm hlt]
   have hpol := polling_of_word_one h hw
   have hpre := preSwap_of_polling hpol
   rcases h with ⟨h1, h2, h3, h4, h5, h6, h7, h8⟩
+  have hin : true ∈ s.sq ++ [true] := by simp
   refine ⟨h1, ?_, ?_, ?_, ?_, ?_, ?_, ?_⟩
-  · show s.sq + 1 ≤ s.sqLen
-    omega
+  · show (s.sq ++ [true]).length ≤ s.sqLen
+    simp; omega
   · simp [hpol]
-  · intro _ _; right; left; show 0 < s.sq + 1; omega
-  · intro _; right; left; show 0 < s.sq + 1; omega
+  · intro _ _; right; left; exact hin
+  · intro _; right; left; exact hin
   · intro _ b
     have b' : s.p.preSwap = true := b
     rw [hpre] at b'; cases b'
   · intro a _
     have a' : s.mode ≠ .sqpoll := a
     refine Has.set_self hj ⟨_, rfl, ?_⟩
+    show true ∉ (s.sq ++ [true]).drop _
     simp [a']
   · intro a
     exact full_set hj (h8 a) (by simp)
 
 theorem inv_stepW_k1_full {s : St} {j : Nat} (h : Inv s) (hj : s.w[j]? = some .k1)
-    (hw : s.word = 1) (hm : s.mode ≠ .single) (hlt : ¬ s.sq < s.sqLen) : Inv (stepW s j) := by
+    (hw : s.word = 1) (hm : s.mode ≠ .single) (hlt : ¬ s.sq.length < s.sqLen) :
+    Inv (stepW s j) := by
   rw [stepW_k1_full hj hw hm hlt]
   have hpol := polling_of_word_one h hw
   have hpre := preSwap_of_polling hpol
   rcases h with ⟨h1, h2, h3, h4, h5, h6, h7, h8⟩
   have hr : Has (fun pc => pc.robust = true)
-      (s.w.set j (.enter false (if s.mode = .sqpoll then 0 else s.sq))) := Has.set_self hj rfl
+      (s.w.set j (.enter false (if s.mode = .sqpoll then 0 else s.sq.length))) :=
+    Has.set_self hj rfl
   refine ⟨h1, h2, ?_, ?_, ?_, ?_, ?_, ?_⟩
   · simp [hpol]
   · intro _ _; right; right; exact hr
@@ -570,7 +643,6 @@ theorem inv_stepW_k1_full {s : St} {j : Nat} (h : Inv s) (hj : s.w[j]? = some .k
 theorem inv_stepW_enter_true {s : St} {j n : Nat} (h : Inv s)
     (hj : s.w[j]? = some (.enter true n)) : Inv (stepW s j) := by
   rw [stepW_enter_true hj]
-  have hc := consume_cq_sq s n
   have h7 := h.cover
   rcases inv_consume h n with ⟨t1, t2, t3, t4, t5, t6, _, t8⟩
   have hr : (WPc.enter true n).robust = false := rfl
@@ -587,17 +659,16 @@ theorem inv_stepW_enter_true {s : St} {j n : Nat} (h : Inv s)
     · right; right; left; exact robust_set hj hr c
     · right; right; right; exact c
   · intro a b
-    have b' : 0 < (consume s n).sq := b
-    have hlt := hc.2.2.2 b'
-    rcases h7 a (by omega) with ⟨i, pc, hi, m, e, f⟩
+    have b' : true ∈ s.sq.drop n := b
+    rcases h7 a (List.mem_of_mem_drop b') with ⟨i, pc, hi, m, e, f⟩
     subst e
     have hne : i ≠ j := by
-      intro e; subst e; rw [hi] at hj; cases hj; omega
+      intro e; subst e; rw [hi] at hj; cases hj; exact f b'
     refine ⟨i, _, ?_, m, rfl, ?_⟩
     · show (s.w.set j .done)[i]? = _
       rw [get_set hj]; simp [hne, hi]
-    · show (consume s n).sq ≤ m
-      omega
+    · show true ∉ (s.sq.drop n).drop m
+      exact not_mem_drop_drop f n
   · intro a
     exact full_set hj (t8 a) (by simp)
 
@@ -605,32 +676,35 @@ theorem inv_stepW_enter_false {s : St} {j n : Nat} (h : Inv s)
     (hj : s.w[j]? = some (.enter false n)) : Inv (stepW s j) := by
   have ht := inv_consume h n
   have hjt : (consume s n).w[j]? = some (.enter false n) := hj
-  by_cases hlt : (consume s n).sq < s.sqLen
-  · have e : stepW s j = { (consume s n) with sq := (consume s n).sq + 1, w := (consume s n).w.set j (.enter true (if (consume s n).mode = .sqpoll then 0 else (consume s n).sq + 1)) } :=
+  by_cases hlt : (consume s n).sq.length < s.sqLen
+  · have e : stepW s j = { (consume s n) with sq := (consume s n).sq ++ [true], w := (consume s n).w.set j (.enter true (if (consume s n).mode = .sqpoll then 0 else (consume s n).sq.length + 1)) } :=
       stepW_enter_false_add hj hlt
     rw [e]
-    have hlt' : (consume s n).sq < (consume s n).sqLen := hlt
+    have hlt' : (consume s n).sq.length < (consume s n).sqLen := hlt
     generalize consume s n = t at ht hjt hlt'
     rcases ht with ⟨t1, t2, t3, t4, t5, t6, t7, t8⟩
+    have hin : true ∈ t.sq ++ [true] := by simp
     refine ⟨t1, ?_, t3, ?_, ?_, t6, ?_, ?_⟩
-    · show t.sq + 1 ≤ t.sqLen
-      omega
-    · intro _ _; right; left; show 0 < t.sq + 1; omega
-    · intro _; right; left; show 0 < t.sq + 1; omega
+    · show (t.sq ++ [true]).length ≤ t.sqLen
+      simp; omega
+    · intro _ _; right; left; exact hin
+    · intro _; right; left; exact hin
     · intro a _
       have a' : t.mode ≠ .sqpoll := a
       refine Has.set_self hjt ⟨_, rfl, ?_⟩
+      show true ∉ (t.sq ++ [true]).drop _
       simp [a']
     · intro a
       exact full_set hjt (t8 a) (by simp)
-  · have e : stepW s j = { (consume s n) with w := (consume s n).w.set j (.enter false (if (consume s n).mode = .sqpoll then 0 else (consume s n).sq)) } :=
+  · have e : stepW s j = { (consume s n) with w := (consume s n).w.set j (.enter false (if (consume s n).mode = .sqpoll then 0 else (consume s n).sq.length)) } :=
       stepW_enter_false_full hj hlt
     rw [e]
-    have hlt' : ¬ (consume s n).sq < (consume s n).sqLen := hlt
+    have hlt' : ¬ (consume s n).sq.length < (consume s n).sqLen := hlt
     generalize consume s n = t at ht hjt hlt'
     rcases ht with ⟨t1, t2, t3, t4, t5, t6, t7, t8⟩
     have hr : Has (fun pc => pc.robust = true)
-        (t.w.set j (.enter false (if t.mode = .sqpoll then 0 else t.sq))) := Has.set_self hjt rfl
+        (t.w.set j (.enter false (if t.mode = .sqpoll then 0 else t.sq.length))) :=
+      Has.set_self hjt rfl
     refine ⟨t1, t2, t3, ?_, ?_, t6, ?_, ?_⟩
     · intro _ _; right; right; exact hr
     · intro _; right; right; left; exact hr
@@ -665,7 +739,7 @@ theorem inv_stepW {s : St} (h : Inv s) (j : Nat) : Inv (stepW s j) := by
       by_cases hw : s.word = 1
       · by_cases hm : s.mode = .single
         · exact inv_stepW_k1_single h hj hw hm
-        · by_cases hlt : s.sq < s.sqLen
+        · by_cases hlt : s.sq.length < s.sqLen
           · exact inv_stepW_k1_add h hj hw hm hlt
           · exact inv_stepW_k1_full h hj hw hm hlt
       · exact inv_stepW_k1_other h hj hw
@@ -681,7 +755,7 @@ theorem inv_stepW {s : St} (h : Inv s) (j : Nat) : Inv (stepW s j) := by
 /-- A waker step only changes the polling word (at `k1`, by `fetch_or(AWOKEN)`), the
 two queues, the wakers' pcs and the ghost `oblig`. -/
 theorem stepW_shape (s : St) (j : Nat) :
-    ∃ (wd cq sq : Nat) (w : List WPc) (ob : Bool),
+    ∃ (wd cq : Nat) (sq : List Bool) (w : List WPc) (ob : Bool),
       stepW s j = { s with word := wd, cq := cq, sq := sq, w := w, oblig := ob } ∧
       (wd = s.word ∨ (s.w[j]? = some .k1 ∧
         wd = if s.word / 2 % 2 = 1 then s.word else s.word + 2)) := by
@@ -694,13 +768,13 @@ theorem stepW_shape (s : St) (j : Nat) :
       · have e : (if s.word / 2 % 2 = 1 then s.word else s.word + 2) = 3 := by simp [hw]
         by_cases hm : s.mode = .single
         · rw [stepW_k1_single hj hw hm]; exact ⟨_, _, _, _, _, rfl, Or.inr ⟨rfl, e.symm⟩⟩
-        · by_cases hlt : s.sq < s.sqLen
+        · by_cases hlt : s.sq.length < s.sqLen
           · rw [stepW_k1_add hj hw hm hlt]; exact ⟨_, _, _, _, _, rfl, Or.inr ⟨rfl, e.symm⟩⟩
           · rw [stepW_k1_full hj hw hm hlt]; exact ⟨_, _, _, _, _, rfl, Or.inr ⟨rfl, e.symm⟩⟩
       · rw [stepW_k1_other hj hw]; exact ⟨_, _, _, _, _, rfl, Or.inr ⟨rfl, rfl⟩⟩
     | enter added n =>
       cases added
-      · by_cases hlt : (consume s n).sq < s.sqLen
+      · by_cases hlt : (consume s n).sq.length < s.sqLen
         · rw [stepW_enter_false_add hj hlt]; exact ⟨_, _, _, _, _, rfl, Or.inl rfl⟩
         · rw [stepW_enter_false_full hj hlt]; exact ⟨_, _, _, _, _, rfl, Or.inl rfl⟩
       · rw [stepW_enter_true hj]; exact ⟨_, _, _, _, _, rfl, Or.inl rfl⟩
@@ -729,6 +803,7 @@ theorem inv_stepMv {s : St} (h : Inv s) (m : Mv) : Inv (stepMv s m) := by
   | w j => exact inv_stepW h j
   | k => exact inv_stepK h
   | io => exact inv_stepIo h
+  | fill => exact inv_stepFill h
 
 theorem inv_runMv {s : St} (h : Inv s) (ms : List Mv) : Inv (runMv s ms) := by
   induction ms generalizing s with
